@@ -45,7 +45,7 @@ func allReturnsNonNil(c *core.Ctx, fn *ssa.Function, r *ssax.Reach, idx int) (ok
 }
 
 func c19(c *core.Ctx) {
-	c.Explain("C19 (authentication): decided statically — R1 in connectWithTimeOut the registration of the client and the success CONNACK are unreachable once connectHandler or authHandler returned an error, and a hook's error reaches connectHandler's result (basic: under 'no AuthMethod'; enhanced: under 'AuthMethod present'), with the two selector predicates partitioning all CONNECTs (same nil-test on the same field); R2 the ten packet handlers are called only from readHandle, readHandle / pollMessageHandler are spawned only under a true result of connectWithTimeOut, and that result is true only when no error was recorded; R3 the auth plugin's wrapper validates (Username, Password) in that order and, when validation fails, returns a non-nil error for every protocol version the decoder accepts (3.1, 3.1.1, 5); R4 enhancedAuth fails closed when no hook is installed or the hook returns no response; R5 the password file is written to the path it is loaded from, on every path of the save handler that reports success.")
+	c.Explain("C19 (authentication): decided statically — R1 in connectWithTimeOut the registration of the client and the success CONNACK are unreachable once connectHandler or authHandler returned an error, and a hook's error reaches connectHandler's result (basic: under 'no AuthMethod'; enhanced: under 'AuthMethod present'), with the two selector predicates partitioning all CONNECTs (same nil-test on the same field); R2 the ten packet handlers are called only from readHandle, readHandle / pollMessageHandler are spawned only under a true result of connectWithTimeOut, and that result is true only when no error was recorded; R3 the auth plugin's wrapper validates (Username, Password) in that order and, when validation fails, returns a non-nil error for every protocol version the decoder accepts (3.1, 3.1.1, 5); R4 enhancedAuth fails closed when no hook is installed or the hook returns no response; R5 the password file is written to the path it is loaded from, on every path of the save handler that reports success. Added in the second round: Update / Delete change the account table before saving the password file.")
 	c.NotDecided("correctness of the hash algorithms, every CONNECT encoding, histories of account changes (runtime data)")
 	p := c.P
 	fl := ssax.NewFlow()
